@@ -294,6 +294,12 @@ class QintImp(int, Qtype):
         if not issubclass(tright[0], Qtype):
             raise TypeErrorException(tright[0], Qtype)
 
+        # the mask identity holds only when y is a power of two
+        if cls.is_const(tright):
+            y = cast(int, cast(Qtype, tright[0]).from_bool(tright[1]))
+            if y <= 0 or y & (y - 1) != 0:
+                raise Exception(f"Modulo is supported only for 2**n values, got {y}")
+
         tval = tright[0].sub(tright, tright[0].const(1))
         return tleft[0].bitwise_and(tleft, tval)
 
